@@ -50,13 +50,31 @@ from fickling.context import FicklingContextManager  # noqa: E402
 from fickling.exception import UnsafeFileError  # noqa: E402
 from fickling.fickle import Pickled  # noqa: E402
 from harness.c08child import dg, rc  # noqa: E402
+import fickling.loader as _loader  # noqa: E402
+
+_real_check = _loader.check_safety
+
+
+def _check_then_flip(*a, **k):
+    """the analysis has just finished: this is 'between analysis and load' (if the loader is refactored
+    not to use this name the wrapper simply never fires)"""
+    try:
+        return _real_check(*a, **k)
+    finally:
+        flip()
+
+
+_loader.check_safety = _check_then_flip
 
 ORDER = [Severity.LIKELY_SAFE, Severity.POSSIBLY_UNSAFE, Severity.SUSPICIOUS, Severity.LIKELY_UNSAFE,
          Severity.LIKELY_OVERTLY_MALICIOUS, Severity.OVERTLY_MALICIOUS]
 B = b"cverif_sink\nhit\n(S'B'\ntR."
 FAM = {
     "data": [pickle.dumps([1, "a", {"k": (2.5, None)}], 2), pickle.dumps({"x": [1, 2, 3]}, 4), b"(lp0\nI1\naI2\na."],
+    "bigdata": [b"\x80\x04B" + (2 * 1024 * 1024 + 5).to_bytes(4, "little") + b"z" * (2 * 1024 * 1024 + 5) + b".",
+                b"\x80\x04]\x94(X" + (1024 * 1024 + 9).to_bytes(4, "little") + b"u" * (1024 * 1024 + 9) + b"K\x01e."],
     "unused": [b"ccollections\nOrderedDict\n)R0K\x01."],
+    "dupproto": [b"\x80\x04\x80\x04K\x01.", b"K\x010\x80\x04K\x02.", b"\x80\x02\x80\x03]."],
     "sink": [b"cverif_sink\nhit\n(S'A'\ntR.", b"\x80\x02cverif_sink\nhit\nq\x00X\x01\x00\x00\x00A\x85R."],
     "getpid": [b"cos\ngetpid\n)R.", b"cposix\ngetpid\n)R."],
     "eval": [b"cbuiltins\neval\n(S'1'\ntR.", b"c__builtin__\neval\n(S'\"A\"'\ntR."],
